@@ -956,11 +956,29 @@ pub mod vh1 {
         /// the client keeps its sending side open until it has seen the end of the response (the
         /// peer finishes first); otherwise it half-closes right after its last chunk
         pub client_closes_last: bool,
+        /// what the peer side (the consumer of the upload source and the producer of the response
+        /// payload) does, step by step, right after the `200` was queued and before it drains the
+        /// upload source to its end
+        pub peer_script: Vec<PeerStep>,
+    }
+
+    /// one step of the peer side of [`session_with`]
+    #[derive(Debug, Clone)]
+    pub enum PeerStep {
+        /// write these bytes towards the client (`write_all`)
+        Write(Vec<u8>),
+        /// take one item from the upload source (blocks until there is one), unless this many
+        /// upload bytes were taken already
+        Read(usize),
+        /// let the other tasks run this many times
+        Yield(usize),
+        /// take items from the upload source until this many upload bytes were taken (or it ended)
+        ReadUntil(usize),
     }
 
     impl Default for ClientOpts {
         fn default() -> Self {
-            ClientOpts { capacity: 1 << 20, read_step: 0, drop_sink_after_eof: false, client_closes_last: false }
+            ClientOpts { capacity: 1 << 20, read_step: 0, drop_sink_after_eof: false, client_closes_last: false, peer_script: vec![] }
         }
     }
 
@@ -1057,6 +1075,51 @@ pub mod vh1 {
                 } else {
                     drop(resp);
                 }
+                let mut upload_over = false;
+                for step in &opts.peer_script {
+                    match step {
+                        PeerStep::Write(b) => {
+                            if let Some(s) = sink.as_mut() {
+                                let _ = s.write_all(bytes::Bytes::from(b.clone())).await;
+                            }
+                        }
+                        PeerStep::Read(enough) => {
+                            if !upload_over && obs.upload.len() < *enough {
+                                match source.read().await {
+                                    Ok(pipe::Data::Chunk(b)) => obs.upload.extend_from_slice(&b),
+                                    Ok(pipe::Data::Eof) => {
+                                        obs.upload_end = "eof".into();
+                                        upload_over = true;
+                                    }
+                                    Err(_) => {
+                                        obs.upload_end = "error".into();
+                                        upload_over = true;
+                                    }
+                                }
+                            }
+                        }
+                        PeerStep::Yield(n) => {
+                            for _ in 0..*n {
+                                tokio::task::yield_now().await;
+                            }
+                        }
+                        PeerStep::ReadUntil(enough) => {
+                            while !upload_over && obs.upload.len() < *enough {
+                                match source.read().await {
+                                    Ok(pipe::Data::Chunk(b)) => obs.upload.extend_from_slice(&b),
+                                    Ok(pipe::Data::Eof) => {
+                                        obs.upload_end = "eof".into();
+                                        upload_over = true;
+                                    }
+                                    Err(_) => {
+                                        obs.upload_end = "error".into();
+                                        upload_over = true;
+                                    }
+                                }
+                            }
+                        }
+                    }
+                }
                 if opts.client_closes_last {
                     // the peer finishes first: end of stream towards the client while it still listens
                     if let Some(mut s) = sink.take() {
@@ -1066,7 +1129,7 @@ pub mod vh1 {
                         }
                     }
                 }
-                loop {
+                while !upload_over {
                     match source.read().await {
                         Ok(pipe::Data::Chunk(b)) => obs.upload.extend_from_slice(&b),
                         Ok(pipe::Data::Eof) => {
